@@ -400,6 +400,58 @@ Example nested_nonvacuous :
   Ne.VIEW g (Ne.st s 3) = 2 /\ Ne.VIEW g (Ne.st s 4) = 2 /\ Ne.wAch s 1 = 1 /\ Ne.wAch s 2 = 1 /\ Ne.npc_ s 1 = Ne.NCrit.
 Proof. vm_compute. repeat split; reflexivity. Qed.
 
+(* ================================================================== shopcart: the interactive archetype ANode *)
+From PGV Require C16.ShopNode C16.ShopNodeProofs.
+Module Sn := PGV.C16.ShopNode.
+Module SnP := PGV.C16.ShopNodeProofs.
+
+(* ANode with the WHOLE AWORSet mapping (Add and Remove) over a shared input queue, plus the spec's merge process; for every
+   number of nodes, element set size, input command sequence and interleaving: clocks live on NodeSet, an element never has
+   both an add clock and a remove clock, and the input queue is a suffix of the input *)
+Theorem shopcart_node_invariant : forall g evs, SnP.Inv g (Sn.exec g evs).
+Proof. intros g evs. exact (SnP.inv_reachable g _ (SnP.exec_reachable g evs)). Qed.
+Print Assumptions shopcart_node_invariant.
+
+(* what a replica answers (Query) is exactly the elements of ElemSet that have an add clock *)
+Theorem shopcart_node_query_is_added : forall g evs i e,
+  In e (Sn.query g (Sn.exec g evs) i) <-> e < Sn.E g /\ ~ SnP.zero (Sn.addm (Sn.exec g evs) i e).
+Proof. intros g evs i e. exact (SnP.query_spec g _ i e (SnP.inv_reachable g _ (SnP.exec_reachable g evs))). Qed.
+Print Assumptions shopcart_node_query_is_added.
+
+(* rcvResp answers with the query of the node's own replica *)
+Theorem shopcart_node_answer_is_query : forall g evs p s', Sn.step g (Sn.exec g evs) (Sn.ENode p) = Sn.Ok s' ->
+  Sn.pc (Sn.exec g evs) p = Sn.NResp -> Sn.out_ s' = Some (Sn.query g (Sn.exec g evs) p).
+Proof. intros g evs p s'. exact (SnP.answer_is_query g _ p s'). Qed.
+Print Assumptions shopcart_node_answer_is_query.
+
+(* the assertions inside the spec's Merge (crdt[i1].addMap = crdt[i2].addMap, remMap likewise, crdt[i1] = crdt[i2]) *)
+Theorem shopcart_node_merge_equalises : forall g evs i1 i2 s', Sn.step g (Sn.exec g evs) (Sn.EMerge i1 (Some i2)) = Sn.Ok s' ->
+  forall e n, Sn.addm s' i1 e n = Sn.addm s' i2 e n /\ Sn.remm s' i1 e n = Sn.remm s' i2 e n.
+Proof. intros g evs i1 i2 s'. exact (SnP.merge_equalises g _ i1 i2 s'). Qed.
+Print Assumptions shopcart_node_merge_equalises.
+
+(* no ill-typed step (addMap[elem] / remMap[elem] outside ElemSet) when the input only names elements of ElemSet *)
+Theorem shopcart_node_type_safe : forall g evs e, Forall (fun c => snd c < Sn.E g) (Sn.INPUT g) ->
+  Sn.step g (Sn.exec g evs) e <> Sn.TypeError.
+Proof. intros g evs e. exact (SnP.type_safe_lemma g _ e (SnP.exec_reachable g evs)). Qed.
+Print Assumptions shopcart_node_type_safe.
+
+(* with removes the raw vector clocks are not monotone ("counters never decrease" is a statement about ANodeBench's
+   add-only use, proved above as shopcart_monotone): remove at node 1, merge, add at node 2 *)
+Theorem shopcart_node_clock_monotone_refuted : exists g evs e i el n,
+  SnP.clock (Sn.exec g (evs ++ [e])) i el n < SnP.clock (Sn.exec g evs) i el n.
+Proof.
+  exists SnP.nonmonotone_cfg, SnP.nonmonotone_prefix, (Sn.ENode 2), 2, 0, 1.
+  destruct SnP.clock_not_monotone_lemma as [A B]. rewrite A, B. constructor.
+Qed.
+Print Assumptions shopcart_node_clock_monotone_refuted.
+
+Example shopcart_node_nonvacuous :
+  let g := Sn.mkCfg 2 2 [(true, 0); (true, 1); (false, 0)] in
+  let s := Sn.exec g [Sn.ENode 1; Sn.ENode 1; Sn.ENode 2; Sn.EMerge 1 (Some 2); Sn.ENode 1; Sn.ENode 2; Sn.ENode 2] in
+  Sn.query g s 1 = [1] /\ Sn.query g s 2 = [0; 1] /\ Sn.out_ s = Some [0; 1] /\ Sn.inq s = [].
+Proof. vm_compute. repeat split; reflexivity. Qed.
+
 (* ================================================================== replicatedkv *)
 From PGV Require C16.Rkv C16.RkvProofs C16.RkvProofs2.
 Module Rk := PGV.C16.Rkv.
